@@ -42,7 +42,7 @@ def shards(tier, seed):
 def floors(tier):
     return {"pairs:equivalent": 1500, "pairs:inequivalent": 1500, "constructive:gates_verified": 500,
             "constructive:sequence_verified": 500, "lc_check:calls": 200, "lcomp:calls": 400, "pairs:disconnected": 200,
-            "mode:random": 300, "pairs:n>=10": 20, "arguments:checked_unchanged": 2000, "history:same_arrays_asked_again": 300, "set:solution_space_dim": 5, "state_converter_circuit:calls": 50, "lc_check:non_graph_form_tableaux": 150}
+            "mode:random": 300, "constructive:random_mode_sequence_verified": 100, "pairs:disconnected_n>=9": 30, "pairs:n>=10": 20, "arguments:checked_unchanged": 2000, "history:same_arrays_asked_again": 300, "set:solution_space_dim": 5, "state_converter_circuit:calls": 50, "lc_check:non_graph_form_tableaux": 150}
 
 
 class BasisProbe:
@@ -127,6 +127,25 @@ def run_shard(spec, ctx):
                 n = int(rng.integers(10, 17))        # beyond every exhaustive regime: equivalent pairs by construction
                 ctx.count("pairs:n>=10")
             A = graphs.random_connected_graph(rng, n, [0.15, 0.3, 0.5][i % 3]) if i % 5 else graphs.random_graph(rng, n, 0.3)
+            if i % 6 == 2:
+                # several components whose vertex labels interleave (a component is not a range of labels), 9..25 vertices;
+                # the partner is reached by local complementations, so the pair is equivalent and keeps its partition
+                n = int(rng.integers(9, 26))
+                lab = rng.permutation(n)
+                A = np.zeros((n, n), dtype=int)
+                lo = 0
+                while lo < n:
+                    sz = min(n - lo, int(rng.integers(2, 6)))
+                    blk = graphs.random_connected_graph(rng, sz, 0.4) if sz > 1 else np.zeros((1, 1), dtype=int)
+                    idx = lab[lo:lo + sz]
+                    A[np.ix_(idx, idx)] = blk
+                    lo += sz
+                B = A.copy()
+                for _ in range(int(rng.integers(1, 12))):
+                    B = graphs.local_complement(B, int(rng.integers(n)))
+                ctx.count("pairs:disconnected_n>=9")
+                check_pair(A, B, True, ctx, probe, rng, level=1, modes=["deterministic"] if i % 4 else ["deterministic", "random"])
+                continue
             if i % 2 == 0:
                 B = A.copy()
                 for _ in range(int(rng.integers(1, 12))):
@@ -245,6 +264,20 @@ def check_pair(A, B, truth, ctx, probe, rng, level=1, modes=None):
         if not t.same_group_up_to_signs(group_of(B)):
             ctx.violation("local_clifford_names_do_not_map_A_to_B", case, {"names": names, "solution": sol.tolist()}, key="lc_names_wrong")
             continue
+        if mode == "random":
+            # the sequence-producing entry point in random mode, arguments passed by position as its signature lists them
+            try:
+                sd = int(rng.integers(0, 4)) if ctx.evaluations % 2 else int(rng.integers(1, 1000))      # 0 is the documented default seed
+                seqr = lc.find_lc_operations(Ax, Bx, "random", sd) if sd else lc.find_lc_operations(Ax, Bx, "random")
+                C = A.copy()
+                for v in seqr:
+                    C = graphs.local_complement(C, int(v))
+                ctx.count("constructive:random_mode_sequence_verified")
+                if not np.array_equal(C, B):
+                    ctx.violation("complementation_sequence_wrong", case, {"sequence": [int(v) for v in seqr], "reached": C.tolist(), "mode": "random"}, key="lc_seq_wrong:random")
+            except Exception as e:
+                ctx.violation("find_lc_operations_raises", case, {"exception": f"{type(e).__name__}: {e}"[:300], "mode": "random", "solution_space_dim": probe.last},
+                              key="lc_seq_exc:random")
         if mode == "deterministic":
             try:
                 seq = lc.find_lc_operations(Ax, Bx)
